@@ -474,6 +474,9 @@ pub fn random_unit(property: &'static str, cases: u32, seed: u64, part: usize, a
                 let r = run_case(&case, &mut st);
                 if !failed {
                     evals += 1;
+                    if local.fallback_sample.is_none() {
+                        local.fallback_sample = Some(case_json(&case));
+                    }
                     local.classes.merge(&st.ev);
                     if nontrivial(&case, &st) {
                         let h = fnv1a(serde_json::to_string(&case).unwrap().as_bytes());
